@@ -43,6 +43,8 @@ for i, it in enumerate(payload["items"]):
             rec["self"] = [cnt(g, it["iupac"], match_nodes=True), cnt(g, it["iupac"], match_nodes=True, match_some_fg=True),
                            cnt(g, it["iupac"], match_nodes=True, match_all_fg=True), cnt(g, it["iupac"], match_nodes=True, match_edges=True)]
         rec["sub"] = {q: [cnt(g, q, match_nodes=True), cnt(g, q, match_nodes=True, match_edges=True)] for q in it.get("subchains", [])}
+        rec["sub_all_fg"] = {q: cnt(g, q, match_nodes=True, match_all_fg=True) for q in it.get("subchains", [])}
+        rec["self_after"] = cnt(g, it["iupac"], match_nodes=True, match_all_fg=True) if it.get("self") else None
         path = os.path.join(tmp, f"q_{os.getpid()}_{i}.dot")
         g.save_dot(path)
         rec["dot"] = open(path).read()
